@@ -285,6 +285,131 @@ Ltac open_stable Hps :=
       pose proof (Hps _ _ _ _ _ Hok Hnm H) as Hg
   end.
 
+(* ---------------------------------------------------------------- sgpd *)
+Lemma many_forall_ok {A} (p : parser A) (P : A -> Prop) :
+  (forall bs a r, bytes_ok bs = true -> p bs = Ok (a, r) -> bytes_ok r = true /\ P a) ->
+  forall f cnt bs l r, bytes_ok bs = true -> rd_many f cnt p bs = Ok (l, r) -> Forall P l.
+Proof.
+  intros Hp. induction f as [|f IH]; intros cnt bs l r Hok H; cbn [rd_many] in H.
+  - destruct (cnt =? 0); [|discriminate]. injection H as <- <-. constructor.
+  - destruct (cnt =? 0); [injection H as <- <-; constructor|].
+    destruct (p bs) as [[a r1]| | |] eqn:E1; try discriminate.
+    destruct (rd_many f (cnt - 1) p r1) as [[l' r']| | |] eqn:E2; try discriminate.
+    injection H as <- <-. destruct (Hp _ _ _ Hok E1) as [Hok1 Ha]. constructor; [exact Ha|exact (IH _ _ _ _ Hok1 E2)].
+Qed.
+
+Lemma sgpd_facts h r l rsv r' : bytes_ok r = true -> dec_sgpd h r = Ok ((l, rsv), r') -> leaf_size_guard l = true.
+Proof.
+  intros Hok H. unfold dec_sgpd in H. do 2 step H.
+  apply pbind_ok in H. destruct H as (dlen & r3 & Ed & H). cbv beta zeta in H.
+  assert (Hd0 : (1 <=? vf_version a) = false -> dlen = 0).
+  { intros Hv. rewrite Hv in Ed. unfold rd_if, pret in Ed. now injection Ed as <- _. }
+  assert (Hok3 : bytes_ok r3 = true).
+  { match type of Ed with _ ?x = _ => assert (Hk : bytes_ok x = true) by assumption end.
+    unfold rd_if in Ed. destruct (1 <=? vf_version a); [now destruct (rd_spec _ _ _ _ Hk Ed) as (_ & _ & ?)|inj_pret Ed; assumption]. }
+  clear Ed. apply pbind_ok in H. destruct H as (dgdi & r4 & Eg & H). cbv beta zeta in H.
+  assert (Hok4 : bytes_ok r4 = true).
+  { unfold rd_if in Eg. destruct (2 <=? vf_version a); [now destruct (rd_spec _ _ _ _ Hok3 Eg) as (_ & _ & ?)|inj_pret Eg; assumption]. }
+  clear Eg. apply pbind_ok in H. destruct H as (cnt & r5 & Ec & H). cbv beta zeta in H.
+  destruct (rd_spec _ _ _ _ Hok4 Ec) as (_ & _ & Hok5). clear Ec.
+  apply pbind_ok in H. destruct H as (its & r6 & E & H). inj_pret H.
+  pose proof (many_forall_ok _ (fun it => lenN (wr_sge (snd (fst it)) 0) = fst (fst it) /\
+      (negb (dlen =? 0) = true -> fst (fst it) = dlen) /\ ((1 <=? vf_version a) = false -> dlen <> 0))
+    (fun bs it r Hb Hp => let '(conj _ (conj p2 (conj p3 (conj _ (conj p5 p6))))) := item_sgpd _ _ _ bs it r Hb Hp in conj p2 (conj p3 (conj p5 p6)))
+    _ _ _ _ _ Hok5 E) as HF.
+  cbn [leaf_size_guard]. repeat (apply andb_true_iff; split).
+  + apply N.eqb_eq. assumption.
+  + apply forallb_forall. intros it Hin. apply in_map_iff in Hin. destruct Hin as (x & <- & Hxin).
+    apply N.eqb_eq. exact (proj1 (proj1 (Forall_forall _ _) HF x Hxin)).
+  + destruct (dlen =? 0) eqn:Ez; [reflexivity|]. cbn [orb]. apply forallb_forall. intros it Hin.
+    apply in_map_iff in Hin. destruct Hin as (x & <- & Hxin). apply N.eqb_eq.
+    exact (proj1 (proj2 (proj1 (Forall_forall _ _) HF x Hxin)) eq_refl).
+  + destruct (1 <=? vf_version a) eqn:Ev; [reflexivity|]. cbn [orb]. apply N.eqb_eq.
+    destruct its as [|x t]; [reflexivity|]. exfalso. inversion HF as [|? ? Hx0 _]; subst.
+    exact (proj2 (proj2 Hx0) eq_refl (Hd0 eq_refl)).
+Qed.
+
+(* the reserved byte of the seig entries is captured; the encoder writes 0 and the decoder applied to that reads the same
+   entries (sgpd_item_zero, many_zero): no guard *)
+Lemma zero_items_combine (its : list ((N * sge) * N)) :
+  combine (map fst its) (map (fun _ : N * sge => 0) (map fst its)) = map (fun it => (fst it, 0)) its.
+Proof. induction its as [|[a b] t IH]; [reflexivity|]. cbn [map combine fst]. now rewrite IH. Qed.
+
+Lemma lenN_items_rb dlen (items : list (N * sge)) : forall rs rs' : list N, length rs = length items -> length rs' = length items ->
+  lenN (flat_map (wr_sgpd_item dlen) (combine items rs)) = lenN (flat_map (wr_sgpd_item dlen) (combine items rs')).
+Proof.
+  induction items as [|it t IH]; intros rs rs' H1 H2; [reflexivity|].
+  destruct rs as [|a rs]; [discriminate|]. destruct rs' as [|a' rs']; [discriminate|]. cbn [combine flat_map].
+  rewrite !lenN_app. f_equal; [|apply IH; cbn in *; lia].
+  unfold wr_sgpd_item. cbn [fst snd]. rewrite !lenN_app. f_equal. now rewrite (lenN_wr_sge_rb _ a), (lenN_wr_sge_rb _ a').
+Qed.
+
+Lemma flat_map_len_ge {A} (wr : A -> list N) (z : A -> A) l : Forall (fun a => wr (z a) <> []) l ->
+  (length l <= length (flat_map wr (map z l)))%nat.
+Proof.
+  induction 1 as [|a t Ha _ IH]; [cbn; lia|]. cbn [map flat_map length]. rewrite app_length.
+  destruct (wr (z a)) as [|c w]; [contradiction|]. cbn [length]. lia.
+Qed.
+
+Lemma sgpd_item_nonempty v dlen gt bs it r : bytes_ok bs = true -> rd_sgpd_item v dlen gt bs = Ok (it, r) ->
+  bytes_ok r = true /\ wr_sgpd_item dlen (fst it, 0) <> [].
+Proof.
+  intros Hok H. destruct (item_sgpd _ _ _ _ _ _ Hok H) as (_ & Hokr & Hl & Hne & _). split; [assumption|].
+  unfold wr_sgpd_item. cbn [fst snd]. intros Hw. apply app_eq_nil in Hw. destruct Hw as [_ Hw]. rewrite Hw in Hl.
+  change (lenN (@nil N)) with 0 in Hl. congruence.
+Qed.
+
+Lemma stable_sgpd : leaf_stable dec_sgpd.
+Proof.
+  intros h r l rsv r' Hok Hnm H G Hf _.
+  pose proof (sgpd_facts _ _ _ _ _ Hok H) as Hsg.
+  destruct (lossless_sgpd _ _ _ _ _ Hok H G) as (b & Hb & Hr & Hok').
+  unfold dec_sgpd in H. do 2 step H.
+  apply pbind_ok in H. destruct H as (dlen & r3 & Ed & H). cbv beta zeta in H.
+  apply pbind_ok in H. destruct H as (dgdi & r4 & Eg & H). cbv beta zeta in H.
+  apply pbind_ok in H. destruct H as (cnt & r5 & Ec & H). cbv beta zeta in H.
+  apply pbind_ok in H. destruct H as (its & r6 & E & H). inj_pret H.
+  assert (Hd : dlen < 256 ^ N.of_nat 4 /\ bytes_ok r3 = true).
+  { match type of Ed with _ ?x = _ => assert (Hk : bytes_ok x = true) by assumption end.
+    unfold rd_if in Ed. destruct (1 <=? vf_version a); [destruct (rd_spec _ _ _ _ Hk Ed) as (_ & ? & ?); now split|].
+    inj_pret Ed. split; [change (256 ^ N.of_nat 4) with 4294967296; lia|assumption]. }
+  destruct Hd as [Hdl Hok3].
+  assert (Hg : dgdi < 256 ^ N.of_nat 4 /\ bytes_ok r4 = true).
+  { unfold rd_if in Eg. destruct (2 <=? vf_version a); [destruct (rd_spec _ _ _ _ Hok3 Eg) as (_ & ? & ?); now split|].
+    inj_pret Eg. split; [change (256 ^ N.of_nat 4) with 4294967296; lia|assumption]. }
+  destruct Hg as [Hgl Hok4].
+  destruct (rd_spec _ _ _ _ Hok4 Ec) as (_ & Hcl & Hok5).
+  destruct (rd_many_spec _ (wr_sgpd_item dlen) (fun bs a r Hb Hp => let '(conj p1 (conj p2 _)) := item_sgpd _ _ _ bs a r Hb Hp in conj p1 p2) _ _ _ _ _ Hok5 E) as (_ & Hl & _).
+  unfold stable_concl.
+  eexists. split; [cbn [body_leaf dflt_rsv chunk nth]; reflexivity|].
+  split.
+  { cbn [body_leaf chunk nth] in Hb. injection Hb as <-. rewrite Hr. rewrite !lenN_app. f_equal. f_equal. f_equal. f_equal. f_equal. f_equal.
+    apply lenN_items_rb; now rewrite !map_length. }
+  split; [apply body_size; [reflexivity|exact Hsg]|].
+  intros r2. unfold dec_sgpd, pbind. rewrite zero_items_combine.
+  rewrite vf_join_split by assumption. repeat rewrite <- app_assoc.
+  rewrite rd_enc by assumption. cbv beta iota zeta. rewrite (rdB_lit a0 4) by assumption. cbv beta iota.
+  assert (Hcnt : lenN (map fst its) = cnt) by (unfold lenN; rewrite map_length; exact Hl).
+  pose proof (many_forall_ok _ (fun it : (N * sge) * N => wr_sgpd_item dlen (fst it, 0) <> [])
+                (sgpd_item_nonempty (vf_version a) dlen a0) _ _ _ _ _ Hok5 E) as Hne.
+  pose proof (flat_map_len_ge (wr_sgpd_item dlen) (fun it => (fst it, 0)) its Hne) as Hge.
+  assert (Hd0 : (1 <=? vf_version a) = false -> dlen = 0).
+  { intros Hv. rewrite Hv in Ed. unfold rd_if, pret in Ed. now injection Ed as <- _. }
+  assert (Hg0 : (2 <=? vf_version a) = false -> dgdi = 0).
+  { intros Hv. rewrite Hv in Eg. unfold rd_if, pret in Eg. now injection Eg as <- _. }
+  unfold rd_if, wr_if.
+  destruct (1 <=? vf_version a) eqn:E1; destruct (2 <=? vf_version a) eqn:E2;
+    try (assert (dlen = 0) by (apply Hd0; reflexivity); subst dlen);
+    try (assert (dgdi = 0) by (apply Hg0; reflexivity); subst dgdi);
+    repeat rewrite <- app_assoc; cbn [app];
+    unfold pret; rewrite ?rd_enc by assumption; cbv beta iota;
+    rewrite Hcnt; rewrite rd_enc by assumption; cbv beta iota;
+    match goal with |- context [rd_many ?f cnt (rd_sgpd_item ?v ?dl ?g) (?x ++ r2)] =>
+      rewrite (many_zero (rd_sgpd_item v dl g) (wr_sgpd_item dl) (fun it => (fst it, 0)) (sgpd_item_zero v dl g) _ _ _ _ _ Hok5 E f r2)
+        by (rewrite app_length; lia) end;
+    rewrite !map_map; cbn [fst snd dflt_rsv]; rewrite ?map_map; reflexivity.
+Qed.
+
 Lemma pstable_mvhd : pre_stable dec_mvhd.
 Proof.
   intros h r l rsv r' Hok Hnm H G. pose proof (psized_mvhd _ _ _ _ _ Hok Hnm H) as Hg.
@@ -760,64 +885,6 @@ Qed.
 
 Lemma stable_uuid : leaf_stable dec_uuid.
 Proof. apply stable_of_local; [exact lossless_uuid|exact local_uuid|exact norsv_uuid|exact sized_uuid]. Qed.
-
-(* ---------------------------------------------------------------- sgpd *)
-Lemma many_forall_ok {A} (p : parser A) (P : A -> Prop) :
-  (forall bs a r, bytes_ok bs = true -> p bs = Ok (a, r) -> bytes_ok r = true /\ P a) ->
-  forall f cnt bs l r, bytes_ok bs = true -> rd_many f cnt p bs = Ok (l, r) -> Forall P l.
-Proof.
-  intros Hp. induction f as [|f IH]; intros cnt bs l r Hok H; cbn [rd_many] in H.
-  - destruct (cnt =? 0); [|discriminate]. injection H as <- <-. constructor.
-  - destruct (cnt =? 0); [injection H as <- <-; constructor|].
-    destruct (p bs) as [[a r1]| | |] eqn:E1; try discriminate.
-    destruct (rd_many f (cnt - 1) p r1) as [[l' r']| | |] eqn:E2; try discriminate.
-    injection H as <- <-. destruct (Hp _ _ _ Hok E1) as [Hok1 Ha]. constructor; [exact Ha|exact (IH _ _ _ _ Hok1 E2)].
-Qed.
-
-Lemma sgpd_facts h r l rsv r' : bytes_ok r = true -> dec_sgpd h r = Ok ((l, rsv), r') ->
-  leaf_size_guard l = true /\ (leaf_guard l = true -> rsv = dflt_rsv l).
-Proof.
-  intros Hok H. unfold dec_sgpd in H. do 2 step H.
-  apply pbind_ok in H. destruct H as (dlen & r3 & Ed & H). cbv beta zeta in H.
-  assert (Hd0 : (1 <=? vf_version a) = false -> dlen = 0).
-  { intros Hv. rewrite Hv in Ed. unfold rd_if, pret in Ed. now injection Ed as <- _. }
-  assert (Hok3 : bytes_ok r3 = true).
-  { match type of Ed with _ ?x = _ => assert (Hk : bytes_ok x = true) by assumption end.
-    unfold rd_if in Ed. destruct (1 <=? vf_version a); [now destruct (rd_spec _ _ _ _ Hk Ed) as (_ & _ & ?)|inj_pret Ed; assumption]. }
-  clear Ed. apply pbind_ok in H. destruct H as (dgdi & r4 & Eg & H). cbv beta zeta in H.
-  assert (Hok4 : bytes_ok r4 = true).
-  { unfold rd_if in Eg. destruct (2 <=? vf_version a); [now destruct (rd_spec _ _ _ _ Hok3 Eg) as (_ & _ & ?)|inj_pret Eg; assumption]. }
-  clear Eg. apply pbind_ok in H. destruct H as (cnt & r5 & Ec & H). cbv beta zeta in H.
-  destruct (rd_spec _ _ _ _ Hok4 Ec) as (_ & _ & Hok5). clear Ec.
-  apply pbind_ok in H. destruct H as (its & r6 & E & H). inj_pret H.
-  pose proof (many_forall_ok _ (fun it => lenN (wr_sge (snd (fst it)) 0) = fst (fst it) /\
-      (negb (dlen =? 0) = true -> fst (fst it) = dlen) /\ ((1 <=? vf_version a) = false -> dlen <> 0))
-    (fun bs it r Hb Hp => let '(conj _ (conj p2 (conj p3 (conj _ (conj p5 p6))))) := item_sgpd _ _ _ bs it r Hb Hp in conj p2 (conj p3 (conj p5 p6)))
-    _ _ _ _ _ Hok5 E) as HF.
-  split.
-  - cbn [leaf_size_guard]. repeat (apply andb_true_iff; split).
-    + apply N.eqb_eq. assumption.
-    + apply forallb_forall. intros it Hin. apply in_map_iff in Hin. destruct Hin as (x & <- & Hxin).
-      apply N.eqb_eq. exact (proj1 (proj1 (Forall_forall _ _) HF x Hxin)).
-    + destruct (dlen =? 0) eqn:Ez; [reflexivity|]. cbn [orb]. apply forallb_forall. intros it Hin.
-      apply in_map_iff in Hin. destruct Hin as (x & <- & Hxin). apply N.eqb_eq.
-      exact (proj1 (proj2 (proj1 (Forall_forall _ _) HF x Hxin)) eq_refl).
-    + destruct (1 <=? vf_version a) eqn:Ev; [reflexivity|]. cbn [orb]. apply N.eqb_eq.
-      destruct its as [|x t]; [reflexivity|]. exfalso. inversion HF as [|? ? Hx0 _]; subst.
-      exact (proj2 (proj2 Hx0) eq_refl (Hd0 eq_refl)).
-  - cbn [leaf_guard dflt_rsv]. intros G. f_equal. clear -G. induction its as [|x t IH]; [reflexivity|].
-    cbn [forallb] in G. apply andb_true_iff in G. destruct G as [G1 G2]. apply N.eqb_eq in G1.
-    cbn [map]. now rewrite G1, (IH G2).
-Qed.
-
-Lemma stable_sgpd : leaf_stable dec_sgpd.
-Proof.
-  intros h r l rsv r' Hok Hnm H G Hf _.
-  destruct (sgpd_facts _ _ _ _ _ Hok H) as [Hsg Hd]. specialize (Hd G). subst rsv.
-  destruct (lossless_sgpd _ _ _ _ _ Hok H G) as (b & Hb & -> & Hok').
-  exists b. split; [exact Hb|]. split; [now rewrite lenN_app|]. split; [now apply body_size|].
-  destruct (local_sgpd h _ _ _ H) as (x & Hx & Hall). apply app_inv_tail in Hx. subst x. exact Hall.
-Qed.
 
 (* ---------------------------------------------------------------- every table entry *)
 Lemma pre_leaf_stable d : pre_stable d -> leaf_stable d.
